@@ -3,7 +3,9 @@ import os, sys, json, time, hashlib, subprocess, fcntl, re
 
 ROOT = os.path.dirname(os.path.dirname(os.path.abspath(__file__)))
 BUILD = os.path.join(ROOT, '_build')
-EVID = os.path.join(ROOT, 'evidence')
+# evalmut.py (seeded-change evaluation) points this elsewhere so that runs against a patched /repo never
+# overwrite the evidence of the unchanged tree
+EVID = os.environ.get('VERIF_EVIDENCE_DIR') or os.path.join(ROOT, 'evidence')
 REPLAY = os.path.join(EVID, 'replay')
 REPO = '/repo'
 COQ_Q = ['-Q', 'Model', 'Educe.Model', '-Q', 'Extract', 'Educe.Extract', '-Q', 'Sem', 'Educe.Sem',
